@@ -350,6 +350,7 @@ static const size_t EXTREME[] = {(size_t)1 << 16, ((size_t)1 << 31) - 1, (size_t
                                  SIZE_MAX / 2, SIZE_MAX / 2 + 1, SIZE_MAX - 1, SIZE_MAX};
 static const size_t N_EXTREME = sizeof EXTREME / sizeof *EXTREME;
 static bool extreme(size_t n) { return n >= ((size_t)1 << 16); }
+static bool gib_range(size_t n) { return n > ((size_t)1 << 16) && n < SIZE_MAX / 2 - 8; }
 
 // ================================================================ checks, one per routine
 // ---- memcpy / memmove on separate blocks
@@ -1140,10 +1141,14 @@ static void single_run(uint64_t idx)
             chk_strnlen(s, m, mis), ev++;
             chk_dup(s, true, m, mis), ev++;
         }
-        for (size_t m : EXTREME)
+        for (size_t k = 0; k < N_EXTREME; k++)
         {
+            size_t m = EXTREME[(k + idx / E_SINGLE_COUNT) % N_EXTREME]; // rotated: a failure on one bound does not hide the others
             chk_strnlen(s, m, mis), ev++;
-            chk_dup(s, true, m, mis), ev++;
+            // an implementation that sizes its block from the bound makes the 2^31..2^32 calls cost GiB-sized
+            // allocations: those bounds go to every 16th string only, the rest to all
+            if (!gib_range(m) || (idx / E_SINGLE_COUNT) % 16 == 0)
+                chk_dup(s, true, m, mis), ev++;
         }
         break;
     case E_COPY:
@@ -1267,7 +1272,14 @@ static void rand_run(uint64_t idx)
         switch (g)
         {
         case R_LEN: chk_strlen(a, m1), chk_strnlen(a, bound(L), m1); break;
-        case R_DUP: chk_dup(a, false, 0, m1), chk_dup(a, true, bound(L), m1); break;
+        case R_DUP:
+        {
+            size_t sz = bound(L);
+            if (gib_range(sz) && !r.chance(1, 8))
+                sz = SIZE_MAX - r.below(3);
+            chk_dup(a, false, 0, m1), chk_dup(a, true, sz, m1);
+            break;
+        }
         case R_CASE: chk_case(false, a, m1), chk_case(true, a, m1); break;
         case R_CPY: chk_strcpy(a, m1, m2); break;
         case R_NCPY: chk_strncpy(a, around(L), m1, m2); break;
